@@ -130,6 +130,11 @@ func (s *Segment) loadFieldDocValueReader(field string,
 }
 
 func (di *docValueReader) loadDvChunk(chunkNumber uint64, s *Segment) error {
+	// until the new chunk is loaded completely this reader holds no chunk:
+	// the header is overwritten in place below, so a failed storage read
+	// must not leave the previous chunk's number behind
+	di.curChunkNum = math.MaxInt64
+
 	// advance to the chunk where the docValues
 	// reside for the given docNum
 	destChunkDataLoc, curChunkEnd := di.dvDataLoc, di.dvDataLoc
